@@ -93,7 +93,7 @@ def run(rep):
         for var, text in renderings(line, cfg, gi, gi % 9 == 0):
             items.append({"line": line, "text": text, "cfg": cfg, "lang": "en", "expected": c["expected"], "variant": var, "feat": feat_of(line), "class_fn": cls, "nontrivial": nz})
     forms.replay(rep, items, "c05.gen")
-    random_trace(rep, curs, 3000 if quick else 30000)
+    random_trace(rep, curs, 3000 if quick else 200000)
 
 
 def rq(rng, lim=500):
